@@ -1,6 +1,6 @@
 #!/usr/bin/env bash
 # tools/process_seeds.sh <Cxx> <slug1> <slug2>
-# For /tmp/seed-Cxx/out/change{1,2}: confirm (suite green with change, demo fails with / passes without),
+# env SEED_PREFIX (default seed), SEED_ROUND (default 2). For /tmp/<prefix>-Cxx/out/change{1,2}: confirm (suite green with change, demo fails with / passes without),
 # ingest into /verif/seeded/Cxx-<slug>/, run the quick check on it, write meta.json (breaks / needs are
 # taken from the first lines of notes.md; edit afterwards if needed). Prints one summary line per change.
 set -u
@@ -8,20 +8,20 @@ P="$1"; shift
 VR="$(cd "$(dirname "$0")/.." && pwd)"
 i=0
 for slug in "$@"; do
-  i=$((i+1)); ch=/tmp/seed-$P/out/change$i; f=$ch/demo.rs
+  i=$((i+1)); ch=/tmp/${SEED_PREFIX:-seed}-$P/out/change$i; f=$ch/demo.rs
   [ -f "$ch/patch.diff" ] || { echo "SEED $P change$i: no patch"; continue; }
   dest=$(grep -m1 -i 'where to put' $f | sed 's/.*[Ww]here to put it: *//' | awk '{print $1}' | tr -d '`')
   spec=$(grep -m1 -o -- '-p [a-z-]* --test [a-zA-Z0-9_]*' $f); crate=$(echo $spec | awk '{print $2}'); tn=$(echo $spec | awk '{print $4}')
-  conf=$("$VR/tools/confirm_seed.sh" /tmp/seed-$P $ch "$dest" "$crate" "$tn" 2>&1 | grep CONFIRM | sed 's/CONFIRM //' | cut -c1-60 | tr '\n' ';')
+  conf=$("$VR/tools/confirm_seed.sh" /tmp/${SEED_PREFIX:-seed}-$P $ch "$dest" "$crate" "$tn" 2>&1 | grep CONFIRM | sed 's/CONFIRM //' | cut -c1-60 | tr '\n' ';')
   d="$VR/seeded/$P-$slug"; mkdir -p "$d"; cp $ch/patch.diff $ch/demo.rs $ch/notes.md "$d/"; [ -f $ch/demo_cargo_toml.diff ] && cp $ch/demo_cargo_toml.diff "$d/"
   out=$("$VR/tools/mutant_run.sh" $P "$d/patch.diff" quick 2>&1)
   res=$(echo "$out" | grep -o "rc=[0-9]* ([A-Za-z-]*)" | tail -1)
   sigs=$(echo "$out" | grep -o "sig=[^ ]*" | sort -u | head -4 | tr '\n' ' ')
   verdict="detected"; echo "$res" | grep -q "rc=1" || verdict="missed"
-  python3 - "$d" "$P" "$slug" "$verdict" "$sigs" "$conf" <<'PY'
+  python3 - "$d" "$P" "$slug" "$verdict" "$sigs" "$conf" "${SEED_ROUND:-2}" <<'PY'
 import json, sys
-d, P, slug, verdict, sigs, conf = sys.argv[1:7]
-json.dump({"property": P, "round": 2, "origin": "independent sub-agent given only the property record and a scratch worktree of /repo (no access to /verif)",
+d, P, slug, verdict, sigs, conf, rnd = sys.argv[1:8]
+json.dump({"property": P, "round": int(rnd), "origin": "independent sub-agent given only the property record and a scratch worktree of /repo (no access to /verif)",
   "breaks": slug.replace('-', ' '), "needs_to_manifest": "see notes.md",
   "confirmed": conf, "check_result_first_run": verdict, "signatures": sigs.strip(),
   "how_to_run": "tools/mutant_run.sh %s seeded/%s-%s/patch.diff quick" % (P, P, slug)}, open(d + "/meta.json", "w"), indent=1)
